@@ -745,6 +745,16 @@ theorem forest_delete {cs : List Cls} (hf : Forest cs) (n : Name) :
       · exact Or.inr (.trans hdesc hd hch)
     simp [hdn] at hk
 
+theorem addInstance_ok {s s' : State} {i : Inst} (h : addInstance s i = .ok s') :
+    s' = { s with insts := s.insts ++ [i] } ∧
+    (∀ x ∈ s.insts, (ieq x.cls i.cls && x.key == i.key) = false) := by
+  unfold addInstance at h
+  split at h
+  · simp at h
+  · rename_i hn
+    injection h with h
+    exact ⟨h.symm, by simpa using hn⟩
+
 theorem addDecl_ok {s s' : State} {d : QDecl} (h : addDecl s d = .ok s') :
     s' = { s with decls := s.decls ++ [d] } := by
   unfold addDecl at h
@@ -812,7 +822,11 @@ theorem forest_step {s : State} (hf : Forest s.classes) (op : Op) : Forest (step
   | enumNames cn d => simp only [step]; split <;> exact hf
   | enumClasses cn d f => simp only [step]; split <;> exact hf
   | supers n => simp only [step]; split <;> exact hf
-  | addInst i => exact hf
+  | addInst i =>
+    simp only [step]
+    cases h : addInstance s i with
+    | error e => exact hf
+    | ok s' => rw [(addInstance_ok h).1]; exact hf
   | enumInsts n => simp only [step]; split <;> exact hf
   | addDecl d =>
     simp only [step]
@@ -1507,7 +1521,11 @@ theorem originOK_step {sel : Cls → List Elem}
   | enumNames cn d => simp only [step]; split <;> exact hok
   | enumClasses cn d f => simp only [step]; split <;> exact hok
   | supers n => simp only [step]; split <;> exact hok
-  | addInst i => exact hok
+  | addInst i =>
+    simp only [step]
+    cases h : addInstance s i with
+    | error e => exact hok
+    | ok s' => rw [(addInstance_ok h).1]; exact hok
   | enumInsts n => simp only [step]; split <;> exact hok
   | addDecl d =>
     simp only [step]
@@ -2312,7 +2330,11 @@ theorem normSupers_step {s : State} (hn : NormSupers s.classes) (op : Op) : Norm
   | enumNames cn d => simp only [step]; split <;> exact hn
   | enumClasses cn d f => simp only [step]; split <;> exact hn
   | supers n => simp only [step]; split <;> exact hn
-  | addInst i => exact hn
+  | addInst i =>
+    simp only [step]
+    cases h : addInstance s i with
+    | error e => exact hn
+    | ok s' => rw [(addInstance_ok h).1]; exact hn
   | enumInsts n => simp only [step]; split <;> exact hn
   | isSub k sup => simp only [step]; split <;> exact hn
 
@@ -2608,7 +2630,11 @@ theorem childExposes_step {sel : Cls → List Elem}
   | enumNames cn d => simp only [step]; split <;> exact hok
   | enumClasses cn d f => simp only [step]; split <;> exact hok
   | supers n => simp only [step]; split <;> exact hok
-  | addInst i => exact hok
+  | addInst i =>
+    simp only [step]
+    cases h : addInstance s i with
+    | error e => exact hok
+    | ok s' => rw [(addInstance_ok h).1]; exact hok
   | enumInsts n => simp only [step]; split <;> exact hok
   | isSub k sup => simp only [step]; split <;> exact hok
 
@@ -3290,7 +3316,11 @@ theorem storeKeys_step {s : State} (hk : StoreKeys s.classes) (op : Op) (hop : O
   | enumNames cn d => simp only [step]; split <;> exact hk
   | enumClasses cn d f => simp only [step]; split <;> exact hk
   | supers n => simp only [step]; split <;> exact hk
-  | addInst i => exact hk
+  | addInst i =>
+    simp only [step]
+    cases h : addInstance s i with
+    | error e => exact hk
+    | ok s' => rw [(addInstance_ok h).1]; exact hk
   | enumInsts n => simp only [step]; split <;> exact hk
   | isSub k sup => simp only [step]; split <;> exact hk
 
@@ -3300,5 +3330,428 @@ theorem storeKeys_run : ∀ (ops : List Op) {s : State}, StoreKeys s.classes →
   | op :: ops, s, hk, hall => by
     simp only [run]
     exact storeKeys_run ops (storeKeys_step hk op (hall op (by simp))) (fun o ho => hall o (by simp [ho]))
+
+
+/-! ### EnumerateClassNames() without class name lists every class once -/
+
+theorem roots_snoc (cs : List Cls) (c : Cls) :
+    children (cs ++ [c]) none = children cs none ++ (if c.super.isNone then [c.name] else []) := by
+  simp only [children, List.filter_append, List.map_append]
+  congr 1
+  by_cases h : c.super.isNone = true <;> simp [h]
+
+theorem count_all_succ (cs : List Cls) (f : Nat) (x : Name) :
+    List.count x (subNamesDeep (f + 1) cs none) =
+      List.count x (children cs none) +
+        ((children cs none).map (fun m => List.count x (subNamesDeep f cs (some m)))).sum := by
+  simp only [subNamesDeep, List.count_append, List.count_flatten, List.map_map]
+  rfl
+
+theorem all_nodup {cs : List Cls} (hf : Forest cs) : ∀ f, (subNamesDeep (f + 1) cs none).Nodup := by
+  induction hf with
+  | nil => intro f; simp [subNamesDeep, children]
+  | @snoc cs c hf hfr hp ih =>
+    have hF : Forest (cs ++ [c]) := .snoc hf hfr hp
+    intro f
+    rw [List.nodup_iff_count]
+    intro x
+    have hrootmem : ∀ m ∈ children cs none, ∃ q ∈ cs, q.name = m := by
+      intro m hm
+      obtain ⟨q, hq, hqn, _⟩ := mem_children_none.mp hm
+      exact ⟨q, hq, hqn⟩
+    rw [count_all_succ, roots_snoc, List.count_append, List.map_append, List.sum_append]
+    have hS : ∀ y, ((if c.super.isNone then [c.name] else []).map
+        (fun m => List.count y (subNamesDeep f (cs ++ [c]) (some m)))).sum = 0 := by
+      intro y; split
+      · simp [subNamesDeep_last hF f]
+      · simp
+    rw [hS x]
+    by_cases hx : x = c.name
+    · subst hx
+      have h0 : List.count c.name (children cs none) = 0 := by
+        apply List.count_eq_zero.mpr
+        intro h
+        obtain ⟨q, hq, hqn⟩ := hrootmem _ h
+        exact name_fresh hF q hq hqn
+      have hE : List.count c.name (if c.super.isNone then [c.name] else []) =
+          (if c.super.isNone then 1 else 0) := by split <;> simp
+      rw [h0, hE]
+      have hle := sum_map_le (l := children cs none)
+        (f := fun m => List.count c.name (subNamesDeep f (cs ++ [c]) (some m)))
+        (g := fun m => (if isChildB c m then 1 else 0) + ((subNamesDeep f cs (some m)).filter (isChildB c)).length)
+        (fun m _ => count_new hF f m)
+      have hK : ((subNamesDeep (f + 1) cs none).filter (isChildB c)).length =
+          ((children cs none).map (fun m => (if isChildB c m then 1 else 0) +
+            ((subNamesDeep f cs (some m)).filter (isChildB c)).length)).sum := by
+        rw [sum_map_add]
+        simp only [subNamesDeep, List.filter_append, List.length_append, filter_flatten_length,
+          List.map_map, filter_length_sum (children cs none)]
+        rfl
+      by_cases hroot : c.super.isNone = true
+      · -- a root has no superclass: nothing enumerated can be its superclass
+        have hz : ((subNamesDeep (f + 1) cs none).filter (isChildB c)).length = 0 := by
+          rw [List.length_eq_zero_iff, List.filter_eq_nil_iff]
+          intro m _
+          have : c.super = none := by simpa using hroot
+          simp [isChildB, this]
+        simp [hroot]; omega
+      · have hone : ((subNamesDeep (f + 1) cs none).filter (isChildB c)).length ≤ 1 := by
+          apply filter_length_le_one (ih f)
+          intro m1 hm1 m2 hm2 h1 h2
+          have stored : ∀ m ∈ subNamesDeep (f + 1) cs none, ∃ q ∈ cs, q.name = m := by
+            intro m hm
+            simp only [subNamesDeep, List.mem_append, List.mem_flatten, List.mem_map] at hm
+            rcases hm with hm | ⟨l, ⟨r, _, rfl⟩, hm⟩
+            · exact hrootmem m hm
+            · obtain ⟨q, hq, hqn⟩ := desc_is_stored (subNamesDeep_sound hm); exact ⟨q, hq, hqn⟩
+          obtain ⟨q1, hq1, rfl⟩ := stored m1 hm1
+          obtain ⟨q2, hq2, rfl⟩ := stored m2 hm2
+          obtain ⟨s1, hs1, _, hi1⟩ := isChildB_iff.mp h1
+          obtain ⟨s2, hs2, _, hi2⟩ := isChildB_iff.mp h2
+          rw [hs1] at hs2; cases hs2
+          rw [forest_unique hf q1 hq1 q2 hq2 (ieq_trans (ieq_symm hi1) hi2)]
+        simp [hroot]; omega
+    · have hE : List.count x (if c.super.isNone then [c.name] else []) = 0 := by
+        split
+        · simp [List.count_cons]; intro h; exact hx h.symm
+        · simp
+      rw [hE]
+      have := List.nodup_iff_count.mp (ih f) x
+      rw [count_all_succ] at this
+      rw [sum_map_congr (fun m _ => count_old hF x hx f m)]
+      omega
+
+/-! ### stored instances are pairwise different -/
+
+/-- no two stored instances have the same path (class name up to case, key) -/
+def InstsUnique (l : List Inst) : Prop :=
+  List.Pairwise (fun a b => (ieq a.cls b.cls && a.key == b.key) = false) l
+
+theorem instsUnique_step {s : State} (hu : InstsUnique s.insts) (op : Op) : InstsUnique (step s op).1.insts := by
+  cases op with
+  | addInst i =>
+    simp only [step]
+    cases h : addInstance s i with
+    | error e => exact hu
+    | ok s' =>
+      obtain ⟨rfl, hnew⟩ := addInstance_ok h
+      show List.Pairwise _ (s.insts ++ [i])
+      rw [List.pairwise_append]
+      refine ⟨hu, by simp, ?_⟩
+      intro a ha b hb
+      simp at hb; subst hb
+      exact hnew a ha
+  | create c =>
+    simp only [step]
+    cases h : createClass s c with
+    | error e => exact hu
+    | ok s' => obtain ⟨r, _, rfl, _⟩ := createClass_ok h; exact hu
+  | add c =>
+    simp only [step]
+    cases h : addClass s c with
+    | error e => exact hu
+    | ok s' => obtain ⟨r, _, rfl, _⟩ := addClass_ok h; exact hu
+  | mofCreate c =>
+    simp only [step]
+    cases h : mofCreateClass s c with
+    | error e => exact hu
+    | ok s' => obtain ⟨r, _, rfl, _⟩ := createClass_ok (mofCreateClass_ok h); exact hu
+  | modify c =>
+    simp only [step]
+    cases h : modifyClass s c with
+    | error e => exact hu
+    | ok s' => obtain ⟨_, r, _, _, rfl, _⟩ := modifyClass_ok h; exact hu
+  | delete n =>
+    simp only [step]
+    cases h : deleteClass s n with
+    | error e => exact hu
+    | ok s' =>
+      obtain ⟨_, _, hi, _⟩ := deleteClass_ok h
+      show InstsUnique s'.insts
+      rw [hi]; exact List.Pairwise.sublist List.filter_sublist hu
+  | addDecl d =>
+    simp only [step]
+    cases h : addDecl s d with
+    | error e => exact hu
+    | ok s' => rw [addDecl_ok h]; exact hu
+  | get n f => simp only [step]; split <;> exact hu
+  | enumNames cn d => simp only [step]; split <;> exact hu
+  | enumClasses cn d f => simp only [step]; split <;> exact hu
+  | supers n => simp only [step]; split <;> exact hu
+  | enumInsts n => simp only [step]; split <;> exact hu
+  | isSub k sup => simp only [step]; split <;> exact hu
+
+theorem instsUnique_run : ∀ (ops : List Op) {s : State}, InstsUnique s.insts → InstsUnique (run s ops).1.insts
+  | [], s, h => h
+  | op :: ops, s, h => by simp only [run]; exact instsUnique_run ops (instsUnique_step h op)
+
+theorem reachable_instsUnique {s : State} (h : Reachable s) : InstsUnique s.insts := by
+  obtain ⟨decls, ops, rfl⟩ := h
+  exact instsUnique_run ops (by simp [InstsUnique])
+
+
+/-! ### the own entries of an overriding element's qualifier dictionary, exactly -/
+
+/-- some qualifier of `l` with q's key is ToSubclass and not overridable: the own declaration merely
+    repeats it (the code then marks the own entry propagated) -/
+def MarkedBy (l : List Qual) (q : Qual) : Prop :=
+  ∃ i ∈ l, ieq i.name q.name = true ∧ truthy i.tosub = true ∧ truthy i.overr = false
+
+/-- the entry the resolved dictionary must hold for the own qualifier `q`, given the inherited
+    qualifiers `src` processed so far -/
+def OwnEntry (decls : List QDecl) (src cur : List Qual) (q : Qual) : Prop :=
+  ∃ q0, initQual decls q = .ok q0 ∧
+    (MarkedBy src q → { q0 with propagated := some true } ∈ cur) ∧ (¬ MarkedBy src q → q0 ∈ cur)
+
+/-- per own qualifier: still waiting for its inherited counterpart, or resolved -/
+def OwnState (decls : List QDecl) (done rest cur : List Qual) (q : Qual) : Prop :=
+  (q ∈ cur ∧ hasQual rest q.name = true ∧ ∀ i ∈ done, ieq i.name q.name = false) ∨
+  (OwnEntry decls done cur q ∧ ∀ i ∈ rest, ieq i.name q.name = false)
+
+theorem mem_setQual_other {cur : List Qual} {x' y : Qual} (hy : y ∈ cur) (hne : ieq y.name x'.name = false) :
+    y ∈ setQual cur x' := by
+  simp only [setQual, List.mem_map]
+  exact ⟨y, hy, by simp [hne]⟩
+
+theorem mem_setQual_self {cur : List Qual} {x x' : Qual} (hx : x ∈ cur) (hn : ieq x.name x'.name = true) :
+    x' ∈ setQual cur x' := by
+  simp only [setQual, List.mem_map]
+  exact ⟨x, hx, by simp [hn]⟩
+
+theorem markedBy_snoc_other {done : List Qual} {inh q : Qual} (h : ieq inh.name q.name = false) :
+    MarkedBy (done ++ [inh]) q ↔ MarkedBy done q := by
+  constructor
+  · rintro ⟨i, hi, h1, h2, h3⟩
+    simp at hi
+    rcases hi with hi | rfl
+    · exact ⟨i, hi, h1, h2, h3⟩
+    · simp [h1] at h
+  · rintro ⟨i, hi, rest⟩; exact ⟨i, by simp [hi], rest⟩
+
+theorem initQual_name' {decls : List QDecl} {q q0 : Qual} (h : initQual decls q = .ok q0) : q0.name = q.name :=
+  (initQual_name h).1
+
+theorem inheritStep_own {decls : List QDecl} {done rest cur cur' : List Qual} {inh : Qual}
+    (h : inheritStep decls cur inh = .ok cur')
+    (hpc : List.Pairwise (fun a b => ieq a.name b.name = false) cur)
+    (hdone : ∀ i ∈ done, ieq i.name inh.name = false)
+    (hrest : ∀ i ∈ rest, ieq inh.name i.name = false)
+    {q : Qual} (hq : OwnState decls done (inh :: rest) cur q) :
+    OwnState decls (done ++ [inh]) rest cur' q := by
+  -- two entries of `cur` with the same key are the same entry
+  have uniq : ∀ a ∈ cur, ∀ b ∈ cur, ieq a.name b.name = true → a = b := by
+    intro a ha b hb hab
+    apply Classical.byContradiction
+    intro hne
+    rcases List.mem_iff_append.mp ha with ⟨l1, l2, rfl⟩
+    simp only [List.mem_append, List.mem_cons] at hb
+    rw [List.pairwise_append] at hpc
+    obtain ⟨_, h2, h3⟩ := hpc
+    rw [List.pairwise_cons] at h2
+    rcases hb with hb | rfl | hb
+    · have := h3 b hb a (by simp); simp [ieq_symm hab] at this
+    · exact hne rfl
+    · have := h2.1 b hb; simp [hab] at this
+  by_cases hm : ieq inh.name q.name = true
+  · -- q's counterpart is being processed
+    rcases hq with ⟨hqc, _, hqd⟩ | ⟨_, hqr⟩
+    · have hfind : ∃ x, findQual cur inh.name = some x := by
+        cases hf : findQual cur inh.name with
+        | some x => exact ⟨x, rfl⟩
+        | none =>
+          have := hasQual_false_iff'.mp (findQual_none_iff.mp hf) q hqc
+          simp [ieq_symm hm] at this
+      obtain ⟨x, hf⟩ := hfind
+      have hxq : x = q := uniq x (findQual_some_mem hf) q hqc
+        (ieq_trans (findQual_some_name hf).1 hm)
+      subst hxq
+      have hrest' : ∀ i ∈ rest, ieq i.name x.name = false := by
+        intro i hi
+        have h1 := hrest i hi
+        cases hc : ieq i.name x.name with
+        | false => rfl
+        | true => have := ieq_trans hm (ieq_symm hc); simp [this] at h1
+      have hnotdone : ¬ MarkedBy done x := by
+        rintro ⟨i, hi, h1, _⟩; have := hqd i hi; simp [h1] at this
+      unfold inheritStep at h
+      simp only [hf] at h
+      refine Or.inr ⟨?_, hrest'⟩
+      split at h
+      · rename_i hts
+        split at h
+        · rename_i hov
+          cases hi : initQual decls x with
+          | error e => simp [hi] at h
+          | ok x0 =>
+            simp only [hi] at h; injection h with h; subst h
+            have hx0 : x0 ∈ setQual cur x0 := mem_setQual_self hqc (by rw [initQual_name' hi]; exact ieq_refl _)
+            refine ⟨x0, hi, ?_, fun _ => hx0⟩
+            rintro ⟨i, hi', h1, h2, h3⟩
+            simp at hi'
+            rcases hi' with hi' | rfl
+            · exact absurd ⟨i, hi', h1, h2, h3⟩ hnotdone
+            · simp [hov] at h3
+        · rename_i hov
+          split at h
+          · simp at h
+          · cases hi : initQual decls x with
+            | error e => simp [hi] at h
+            | ok x0 =>
+              simp only [hi] at h; injection h with h; subst h
+              have hx0 : ({ x0 with propagated := some true } : Qual) ∈
+                  setQual cur { x0 with propagated := some true } :=
+                mem_setQual_self hqc (by simp [initQual_name' hi]; exact ieq_refl _)
+              refine ⟨x0, hi, fun _ => hx0, ?_⟩
+              intro hnm
+              exact absurd ⟨inh, by simp, hm, hts, by simpa using hov⟩ hnm
+      · rename_i hts
+        split at h
+        · cases hi : initQual decls x with
+          | error e => simp [hi] at h
+          | ok x0 =>
+            simp only [hi] at h; injection h with h; subst h
+            have hx0 : x0 ∈ setQual cur x0 := mem_setQual_self hqc (by rw [initQual_name' hi]; exact ieq_refl _)
+            refine ⟨x0, hi, ?_, fun _ => hx0⟩
+            rintro ⟨i, hi', h1, h2, h3⟩
+            simp at hi'
+            rcases hi' with hi' | rfl
+            · exact absurd ⟨i, hi', h1, h2, h3⟩ hnotdone
+            · exact absurd h2 hts
+        · simp at h
+    · have := hqr inh (by simp); simp [hm] at this
+  · -- another key: q's entry is not touched
+    have hm' : ieq inh.name q.name = false := by simpa using hm
+    have keep : ∀ y ∈ cur, ieq y.name q.name = true → y ∈ cur' := by
+      intro y hy hyq
+      unfold inheritStep at h
+      cases hf : findQual cur inh.name with
+      | none =>
+        simp only [hf] at h
+        split at h
+        · injection h with h; subst h; simp [hy]
+        · injection h with h; subst h; exact hy
+      | some x =>
+        have hxi := (findQual_some_name hf).1
+        have hne : ∀ x' : Qual, x'.name = x.name → ieq y.name x'.name = false := by
+          intro x' hn
+          cases hc : ieq y.name x'.name with
+          | false => rfl
+          | true =>
+            rw [hn] at hc
+            have := ieq_trans (ieq_symm hxi) (ieq_trans (ieq_symm hc) hyq)
+            simp [this] at hm'
+        simp only [hf] at h
+        have key : ∀ x' : Qual, x'.name = x.name →
+            .ok (setQual cur x') = (Except.ok cur' : Except PyExc (List Qual)) → y ∈ cur' := by
+          intro x' hn hq'; injection hq' with hq'; subst hq'
+          exact mem_setQual_other hy (hne x' hn)
+        split at h
+        · split at h
+          · cases hi : initQual decls x with
+            | error e => simp [hi] at h
+            | ok x0 => simp only [hi] at h; exact key x0 (initQual_name' hi) h
+          · split at h
+            · simp at h
+            · cases hi : initQual decls x with
+              | error e => simp [hi] at h
+              | ok x0 =>
+                simp only [hi] at h
+                exact key { x0 with propagated := some true } (by simp [initQual_name' hi]) h
+        · split at h
+          · cases hi : initQual decls x with
+            | error e => simp [hi] at h
+            | ok x0 => simp only [hi] at h; exact key x0 (initQual_name' hi) h
+          · simp at h
+    rcases hq with ⟨hqc, hqh, hqd⟩ | ⟨⟨q0, hq0, hmk, hnmk⟩, hqr⟩
+    · refine Or.inl ⟨keep q hqc (ieq_refl _), ?_, ?_⟩
+      · simp only [hasQual, List.any_cons, Bool.or_eq_true] at hqh
+        rcases hqh with hqh | hqh
+        · simp [hm'] at hqh
+        · simpa [hasQual] using hqh
+      · intro i hi
+        simp at hi
+        rcases hi with hi | rfl
+        · exact hqd i hi
+        · exact hm'
+    · refine Or.inr ⟨⟨q0, hq0, ?_, ?_⟩, fun i hi => hqr i (by simp [hi])⟩
+      · intro hmark
+        exact keep _ (hmk ((markedBy_snoc_other hm').mp hmark)) (by simp [initQual_name' hq0]; exact ieq_refl _)
+      · intro hnmark
+        exact keep _ (hnmk (fun h' => hnmark ((markedBy_snoc_other hm').mpr h')))
+          (by rw [initQual_name' hq0]; exact ieq_refl _)
+
+theorem inheritFold_own {decls : List QDecl} {own : List Qual} :
+    ∀ (rest done cur r : List Qual), foldE (inheritStep decls) cur rest = .ok r →
+      List.Pairwise (fun a b => ieq a.name b.name = false) (done ++ rest) →
+      List.Pairwise (fun a b => ieq a.name b.name = false) cur → (∀ q ∈ own, Holds cur q) →
+      (∀ q ∈ own, OwnState decls done rest cur q) → ∀ q ∈ own, OwnEntry decls (done ++ rest) r q
+  | [], done, cur, r, h, _, _, _, hst => by
+    simp [foldE] at h; subst h
+    intro q hq
+    rcases hst q hq with ⟨_, hh, _⟩ | ⟨he, _⟩
+    · simp [hasQual] at hh
+    · simpa using he
+  | inh :: rest, done, cur, r, h, hpw, hpc, hown, hst => by
+    simp only [foldE] at h
+    cases hs : inheritStep decls cur inh with
+    | error e => simp [hs] at h
+    | ok cur' =>
+      simp only [hs] at h
+      rw [List.pairwise_append] at hpw
+      obtain ⟨_, hp2, hp3⟩ := hpw
+      rw [List.pairwise_cons] at hp2
+      have hdone : ∀ i ∈ done, ieq i.name inh.name = false := fun i hi => hp3 i hi inh (by simp)
+      obtain ⟨hpc', hown'⟩ := inheritStep_inv hs hpc hown
+      have hst' : ∀ q ∈ own, OwnState decls (done ++ [inh]) rest cur' q :=
+        fun q hq => inheritStep_own hs hpc hdone hp2.1 (hst q hq)
+      have hpw' : List.Pairwise (fun a b => ieq a.name b.name = false) ((done ++ [inh]) ++ rest) := by
+        rw [List.append_assoc, List.pairwise_append]
+        exact ⟨by assumption, by simpa using hp2, hp3⟩
+      have := inheritFold_own rest (done ++ [inh]) cur' r h hpw' hpc' hown' hst'
+      simpa using this
+
+/-- **the own entries of an overriding element's qualifier dictionary, exactly**: for every own
+    qualifier `q` the resolved dictionary holds `_init_qualifier(q)` (flavors: own value, else
+    declaration, else True; propagated = False) — with propagated = True instead exactly when the
+    overridden element carries a ToSubclass, non-overridable qualifier of that name (which `q` may
+    only repeat) -/
+theorem resolveQuals_own_exact {decls : List QDecl} {own inh r : List Qual}
+    (hpo : List.Pairwise (fun a b => ieq a.name b.name = false) own)
+    (hpi : List.Pairwise (fun a b => ieq a.name b.name = false) inh)
+    (h : resolveQuals decls own inh true = .ok r) : ∀ q ∈ own, OwnEntry decls inh r q := by
+  unfold resolveQuals at h
+  simp only [Bool.not_true, Bool.false_eq_true, if_false] at h
+  cases h1 : mapE (fun q => if hasQual inh q.name then .ok q else initQual decls q) own with
+  | error e => simp [h1] at h
+  | ok q1 =>
+    simp only [h1] at h
+    have hn : q1.map lname = own.map lname := by
+      apply mapE_ok_map lname lname _ h1
+      intro a b hab
+      by_cases hq : hasQual inh a.name = true
+      · simp [hq] at hab; subst hab; rfl
+      · simp [hq] at hab; simp [lname, (initQual_name hab).1]
+    have hpw1 := pairwise_of_lnames own q1 hn.symm hpo
+    have hown1 : ∀ q ∈ own, Holds q1 q := by
+      intro q hq
+      obtain ⟨b, hb, hfb⟩ := mapE_ok_fwd h1 q hq
+      by_cases hq' : hasQual inh q.name = true
+      · simp [hq'] at hfb; subst hfb; exact ⟨q, hb, ieq_refl _, rfl, rfl⟩
+      · simp [hq'] at hfb
+        obtain ⟨a1, a2, a3⟩ := initQual_val hfb
+        exact ⟨b, hb, by rw [a1]; exact ieq_refl _, a2, a3⟩
+    have hst1 : ∀ q ∈ own, OwnState decls [] inh q1 q := by
+      intro q hq
+      obtain ⟨b, hb, hfb⟩ := mapE_ok_fwd h1 q hq
+      by_cases hq' : hasQual inh q.name = true
+      · simp [hq'] at hfb; subst hfb
+        exact Or.inl ⟨hb, hq', by simp⟩
+      · simp [hq'] at hfb
+        refine Or.inr ⟨⟨b, hfb, ?_, fun _ => hb⟩, ?_⟩
+        · rintro ⟨i, hi, _⟩; simp at hi
+        · have := hasQual_false_iff'.mp (by simpa using hq')
+          exact this
+    have := inheritFold_own inh [] q1 r h (by simpa using hpi) hpw1 hown1 hst1
+    simpa using this
 
 end Proofs.Resolve
